@@ -12,6 +12,7 @@ Verdict: only what a P monitor rejects on G (graph or recorded trace) is a viola
 """
 import json
 import os
+import re
 import shutil
 
 from vf import build, recs, graph
@@ -49,6 +50,23 @@ def _replay(extra, sig):
     return extra
 
 
+# vacuity guard: event classes that must occur in the extracted graphs, otherwise the check's self-assessment fails (exit 2)
+NEEDED = {"stray2": b'["ntf","stray2"', "missing2": b'["ntf","missing2"', "unknown": b'["ntf","unknown"', "ebus": b'["ntf","ebus"',
+          "reset": b'["ntf","reset"', "info": b'["ntf","info"', "continue": b'["rv",1,', "device-error": b'["rv",3,',
+          "close": b'["close"]', "tx-send": b'["call","send"', "tx-info": b'["call","info"', "tx-start": b'["call","start"'}
+NEEDED_RE = {"won": rb'\["rv",[01],\d+,6,', "lost": rb'\["rv",[01],\d+,4,', "cancelled": rb'\["rv",\d,\d+,2,',
+             "arb-timeout": rb'\["rv",[01],170,5,'}
+
+
+def _scan(path, seen):
+    with open(path, "rb") as f:
+        data = f.read()
+    for k, pat in NEEDED.items():
+        seen[k] = seen.get(k, 0) + data.count(pat)
+    for k, pat in NEEDED_RE.items():
+        seen[k] = seen.get(k, 0) + len(re.findall(pat, data))
+
+
 def _cap(args):
     for a in args:
         if a.startswith("cap="):
@@ -80,12 +98,14 @@ def _device(ctx, exe, wd, cov):
     states = trans = nodes = edges = 0
     per = {}
     drift_nodes = 0
+    seen = {}
     for name, args, quick in DEV_CONFIGS:
         if not (quick or ctx.thorough):
             continue
         gf = "%s/g-%s.ndjson" % (wd, name)
         out = recs.run_harness(ctx, exe, ["graph", gf] + args)
         info = json.loads(out.strip().splitlines()[-1])
+        _scan(gf, seen)
         env = {"VF_CAP": _cap(args)}
         stats, found = graph.check(ctx, "C14Graph", "C14Graph.cfg", gf, env=env, workers=8, heap="10g", tag="C14-" + name)
         for sig, toks in found:
@@ -106,6 +126,10 @@ def _device(ctx, exe, wd, cov):
         ctx.log("device", name, info, stats, [s for s, _ in found], "fidelity-bad=%d" % len(fbad))
         os.remove(gf)
     cov["device_configs"] = per
+    cov["event_classes_in_graphs"] = seen
+    missing = [k for k, v in seen.items() if v == 0 and k not in ("close", "device-error")]   # a repaired self-reset path need not close
+    if missing:
+        raise RuntimeError("vacuity: event classes never produced by any extracted graph: %s" % missing)
     cov["device_graph_nodes"] = nodes
     cov["device_graph_edges"] = edges
     return states, trans, drift_nodes == 0
